@@ -8,7 +8,7 @@ CHECK = {
     "design_ref": "DESIGN.md §5 C04",
     "technique": "stress + schedule perturbation (element constructor window, vec:* hook points); shadow maps "
                  "index->address / address->element state; operator new/delete accounting; virtual "
-                 "CLOCK_MONOTONIC_RAW (link-time clock_gettime) for the 64 s cooling period; TSan/ASan/UBSan",
+                 "CLOCK_MONOTONIC_RAW (link-time clock_gettime) for the 64 s cooling period; TSan/ASan/UBSan; virtual clock with exclusive jumps plus bounded in-flight drift across 64 s unit boundaries",
     "level_text": ("Runtime monitoring of the real ConcurrentVector: 2-16 threads race ensure/reserve/operator[]/"
                    "snapshot/reserved_snapshot/fill_n/copy_n/for_each/gc/size over static block sizes {1,2,128} and "
                    "dynamic {1,3->4,1024} with an element type whose constructor/destructor register themselves "
